@@ -552,3 +552,80 @@ fn c12_tbc_split() {
     assert!(enc_same(&e, &h0.encrypt) && dec_same(&d, &h0.decrypt), "C12: split changed a half");
     kani::cover!(h0.encrypt.index != h0.decrypt.index, "halves at different positions");
 }
+
+// =================================================================================================
+// C06: world-login proof
+// =================================================================================================
+fn world_proof_spec(name: &crate::normalized_string::NormalizedString, sk: &[u8; 40], client_seed: u32, server_seed: u32) -> [u8; 20] {
+    let (nb, nl) = crate::normalized_string::verif_h::name_bytes(name);
+    verif_oracle::sha1_of(&[&nb[..nl], &0u32.to_le_bytes(), &client_seed.to_le_bytes(), &server_seed.to_le_bytes(), sk])
+}
+
+fn p20_eq(a: &[u8; 20], b: &[u8; 20]) -> bool {
+    let mut eq = true;
+    let mut i = 0;
+    while i < 20 {
+        if a[i] != b[i] {
+            eq = false;
+        }
+        i += 1;
+    }
+    eq
+}
+
+/// C06: the client's proof is SHA-1(name | 0u32 | own seed LE | server seed LE | session key); the seed
+/// accessor returns the 4-byte draw and that value is the one used.
+#[kani::proof]
+#[kani::unwind(42)]
+#[kani::stub(core::str::from_utf8, verif_oracle::from_utf8_model)]
+fn c06_tbc_client_msg() {
+    let name = crate::normalized_string::verif_h::any_name(16);
+    let sk: [u8; 40] = kani::any();
+    let server_seed: u32 = kani::any();
+    let seed = ProofSeed::new();
+    assert!(verif_oracle::n_draws() == 1 && verif_oracle::draw_len(0) == 4, "C06: ProofSeed::new does not draw exactly four random bytes");
+    let d = verif_oracle::draw_bytes(0);
+    let own = seed.seed();
+    assert!(own == u32::from_le_bytes([d[0], d[1], d[2], d[3]]), "C06: seed accessor is not the value drawn");
+    let expected = world_proof_spec(&name, &sk, own, server_seed);
+    let (proof, _c) = seed.into_client_header_crypto(&name, sk, server_seed);
+    assert!(p20_eq(&proof, &expected), "C06: client proof is not SHA-1(name | 0 | client seed | server seed | session key)");
+    kani::cover!(own == 0 && server_seed == 0xFFFF_FFFF, "boundary seeds");
+    kani::cover!(name.as_ref().len() == 16, "16-byte name");
+    kani::cover!(name.as_ref().len() == 1, "1-byte name");
+}
+
+/// C06: the server hands out header crypto exactly when the presented proof equals the value for its own seed.
+#[kani::proof]
+#[kani::unwind(42)]
+#[kani::stub(core::str::from_utf8, verif_oracle::from_utf8_model)]
+fn c06_tbc_server_decision() {
+    let name = crate::normalized_string::verif_h::any_name(16);
+    let sk: [u8; 40] = kani::any();
+    let own: u32 = kani::any();
+    let client_seed: u32 = kani::any();
+    let presented: [u8; 20] = kani::any();
+    let expected = world_proof_spec(&name, &sk, client_seed, own);
+    let seed = ProofSeed { seed: own };
+    assert!(seed.seed() == own, "C06: seed accessor differs from the stored seed");
+    match seed.into_server_header_crypto(&name, sk, presented, client_seed) {
+        Ok(_c) => {
+            assert!(p20_eq(&presented, &expected), "C06: header crypto handed out for a proof that is not the expected one");
+            kani::cover!(true, "accepted");
+        }
+        Err(e) => {
+            assert!(!p20_eq(&presented, &expected), "C06: the correct proof was refused");
+            assert!(p20_eq(&e.client_proof, &presented), "C06: error does not carry the presented proof");
+            assert!(p20_eq(&e.server_proof, &expected), "C06: error does not carry the server's proof");
+            let mut diff = 0u32;
+            let mut i = 0;
+            while i < 20 {
+                diff += (presented[i] ^ expected[i]).count_ones();
+                i += 1;
+            }
+            kani::cover!(diff == 1 && presented[19] != expected[19], "single-bit change in the last byte refused");
+            kani::cover!(diff == 2, "two-bit change refused");
+        }
+    }
+    kani::cover!(own == client_seed, "equal seeds");
+}
